@@ -35,6 +35,7 @@ type refFn struct {
 	Callees []string `json:"callees"`
 	PNames  []string `json:"pnames"` // names of the SSA parameters (receiver first)
 	PTypes  []string `json:"ptypes"`
+	Forward bool     `json:"forward,omitempty"` // a thin forwarder on the reference tree already
 }
 
 type refVar struct {
@@ -179,6 +180,7 @@ func fingerprint(f *ssa.Function, pkg string) refFn {
 		r.PNames = append(r.PNames, q.Name())
 		r.PTypes = append(r.PTypes, shortType(q.Type()))
 	}
+	r.Forward = thinForwardTarget(f) != nil
 	r.Params = typeStrings(f.Signature.Params())
 	r.Results = typeStrings(f.Signature.Results())
 	// the functions it calls, looking through helpers of its own package (their names come and go with
@@ -259,7 +261,7 @@ func similarity(ref, c refFn) float64 {
 		s += 3
 	}
 	if ref.Recv != "" && ref.Recv == c.Recv {
-		s += 2
+		s += 3
 	}
 	if sameStrings(ref.Results, c.Results) {
 		s += 1
@@ -281,10 +283,16 @@ func similarity(ref, c refFn) float64 {
 		}
 		union[x] = true
 	}
+	jac := 0.0
 	if len(union) > 0 {
-		s += 4 * float64(inter) / float64(len(union))
+		jac = float64(inter) / float64(len(union))
+		s += 4 * jac
 	} else {
 		s += 2 // both call nothing
+	}
+	// a different name needs evidence in what the function does, not only in its shape
+	if bareName(ref.Name) != bareName(c.Name) && len(union) > 0 && jac < 0.4 {
+		return 0
 	}
 	return s
 }
@@ -373,8 +381,85 @@ func resolveRenames(p *Program) {
 		}
 		reindex(best)
 	}
+	resolveForwarders(p)
 	for _, n := range p.Renames {
 		fmt.Fprintln(os.Stderr, "note: anchor relocated: "+n)
+	}
+}
+
+// thinForwardTarget: f does nothing but hand (some of) its parameters to one function of its own package and
+// return what that returns: the function that does the work.
+func thinForwardTarget(f *ssa.Function) *ssa.Function {
+	if f == nil || len(f.Blocks) != 1 || f.Parent() != nil {
+		return nil
+	}
+	var call *ssa.Call
+	for _, in := range f.Blocks[0].Instrs {
+		switch x := in.(type) {
+		case *ssa.Call:
+			if call != nil {
+				return nil
+			}
+			call = x
+		case *ssa.Return:
+			if call == nil {
+				return nil
+			}
+			for _, rv := range x.Results {
+				if rv == ssa.Value(call) {
+					continue
+				}
+				if ex, ok := rv.(*ssa.Extract); ok && ex.Tuple == ssa.Value(call) {
+					continue
+				}
+				return nil
+			}
+		case *ssa.Extract, *ssa.UnOp, *ssa.FieldAddr, *ssa.Field, *ssa.Alloc, *ssa.Store, *ssa.DebugRef, *ssa.MakeInterface, *ssa.ChangeType:
+		default:
+			return nil
+		}
+	}
+	if call == nil {
+		return nil
+	}
+	g := call.Call.StaticCallee()
+	if g == nil || g.Pkg != f.Pkg || len(g.Blocks) == 0 || g == f || g.Synthetic != "" {
+		return nil
+	}
+	return g
+}
+
+// resolveForwarders: a function the rules name that has become a thin forwarder (the body moved into a method or
+// a helper that the old entry point now just calls) is represented by the function that does the work: it
+// answers to the entry point's name (so calls to either are calls to "it"), and p.Func of the name yields it.
+func resolveForwarders(p *Program) {
+	tab := theRefTable()
+	for i := range tab.Anchors {
+		name := tab.Anchors[i].Name
+		f := p.fnIndex[name]
+		if f == nil {
+			continue
+		}
+		if _, moved := renamedFns.Load(f); moved {
+			continue
+		}
+		g := thinForwardTarget(f)
+		if g == nil {
+			continue
+		}
+		// only when the reference function was not a forwarder itself
+		if tab.Anchors[i].Forward {
+			continue
+		}
+		if _, taken := renamedFns.Load(g); taken || tab.byName[fnName(g)] != nil {
+			continue
+		}
+		was := fnName(g)
+		renamedFns.Store(g, name)
+		p.renamed = append(p.renamed, g)
+		p.fnIndex[name] = g
+		p.forwarders = append(p.forwarders, f)
+		p.Renames = append(p.Renames, fmt.Sprintf("%s only forwards to %s, which is taken to be %s of the reference tree", name, was, name))
 	}
 }
 
